@@ -545,11 +545,13 @@ func (a *IPAllocator) SetAllocation(subscriberID string, prefix *net.IPNet) erro
 
 	// Clear any existing allocation for this subscriber
 	if oldIdx, exists := a.allocated[subscriberID]; exists {
-		if oldIdx != idx {
-			a.bitmap.SetBit(a.bitmap, int(oldIdx), 0)
-			delete(a.indexToSubscriber, oldIdx)
-			a.allocatedCount.Sub(a.allocatedCount, big.NewInt(1))
+		if oldIdx == idx {
+			// Identical record re-applied (e.g. store reload): already set and counted.
+			return nil
 		}
+		a.bitmap.SetBit(a.bitmap, int(oldIdx), 0)
+		delete(a.indexToSubscriber, oldIdx)
+		a.allocatedCount.Sub(a.allocatedCount, big.NewInt(1))
 	}
 
 	// Set new allocation
